@@ -11,6 +11,8 @@ import (
 	"sort"
 	"strconv"
 	"strings"
+
+	"github.com/noble-assets/orbiter/v2/types/core"
 	"time"
 
 	abci "github.com/cometbft/cometbft/abci/types"
@@ -157,8 +159,14 @@ func (s *Sim) execBlock(op Op) {
 	if s.ModeB != nil && op.Inject != "" && len(txs) == 1 {
 		if m, ok := txs[0].Meta.(*txMeta); ok && m.Kind == "recv" && len(m.Pkts) == 1 && m.Pkts[0].State == PktInFlight {
 			var idx, mode int
-			if _, err := fmt.Sscanf(op.Inject, "%d:%d", &idx, &mode); err == nil && (mode == faultBefore || mode == faultAfter || mode == faultPanic) {
+			spec, store := op.Inject, false
+			if strings.HasPrefix(spec, "s") { // the call index counts the orbiter's own store calls too
+				spec, store = spec[1:], true
+			}
+			if _, err := fmt.Sscanf(spec, "%d:%d", &idx, &mode); err == nil && (mode == faultBefore || mode == faultAfter || mode == faultPanic) {
 				s.ModeB.Reset(map[int]int{idx: mode})
+				s.ModeB.Plan.Store = store
+				errClass = (idx + mode) % len(injectedErrClasses)
 				inject = true
 			}
 		}
@@ -181,10 +189,29 @@ func (s *Sim) execBlock(op Op) {
 				s.Stats.Fault("injected_error:" + site)
 			}
 			s.Stats.Count("rule:C03.injected-in-history")
-			if site != "bank.GetBalance" && p.State == PktReceived && decodeAck(p.Ack).Success {
+			// tolerated by design (see storeFaultPass): a statistics write after the bridge request, and the read of
+			// the parameters (limit assumed zero); every other monitor of the run stays on for such a delivery
+			tolerated := false
+			if strings.HasPrefix(site, "store.") {
+				for _, c := range s.ModeB.Plan.Calls[:s.ModeB.Plan.Fired[0]] {
+					if isBridgeSite(c.Site) {
+						tolerated = true
+					}
+				}
+				if site == storeSite("Get", core.AdapterParamsPrefix.Bytes()) {
+					tolerated = true
+				}
+			}
+			if tolerated && site != storeSite("Get", core.AdapterParamsPrefix.Bytes()) && p.State == PktReceived && decodeAck(p.Ack).Success {
+				// the transfer stands, its statistics may be lost (logged by the dispatcher): the fold comparison of
+				// this run ends here; what such a failure may and may not change is decided by C03's store-fault pass
+				s.statsTainted = true
+			}
+			if site != "bank.GetBalance" && !tolerated && p.State == PktReceived && decodeAck(p.Ack).Success {
 				s.violate("C03", "failure-implies-error-ack", "swallowed-failure (random history) site="+site, fmt.Sprintf("packet op=%d: call %s failed (%s) during its delivery but the acknowledgement is a success", p.Origin, site, op.Inject))
 			}
 		}
+		s.ModeB.Plan.Store = false
 		s.ModeB.Reset(nil)
 	}
 }
